@@ -280,3 +280,65 @@ def p8_clone_remap(prog):
             if not calls_loc:
                 r.viol('P8', '%s/location-not-remapped' % f.path, f.loc(), 'Slot::clone_with_new_identifier does not remap its location')
     return r
+
+
+@rule('G2b', props=['C02', 'C13', 'C01'], floor=2)
+def g2b_identifier_generation_after_activation(prog):
+    """allocate / allocate_batch: the generation put into a returned identifier for a *reused* slot is read
+    from that slot after activate_unchecked bumped it (a value read before the bump is one generation
+    stale: the identifier handed to the caller would not be live); fresh slots use generation 0."""
+    r = Result()
+    from .sym import pos_after
+    gen_slot = adt_field_index(prog, 'Slot', 'generation')
+    for name in ('allocate', 'allocate_batch'):
+        cands = [f for f in prog.fns.values() if f.name == name and f.path.startswith('entity::allocator::Allocator')]
+        if len(cands) != 1:
+            r.viol('G2b', 'missing/' + name, '-', 'Allocator::%s not found' % name)
+            continue
+        f = cands[0]
+        bodies = [f] + f.closures()
+        acts = [(b, t) for b, t in f.body.calls(lambda c: c['name'] == 'activate_unchecked')]
+        r.inst('%s: %d activation(s)' % (f.path, len(acts)))
+        if not acts:
+            r.viol('G2b', name + '/no-activation', f.loc(), 'reused slots are not activated')
+            continue
+        body = f.body
+        for b, t in body.calls(lambda c: c['name'] == 'new' and 'entity::identifier::Identifier' in c['path']):
+            gl = op_local(t['args'][1])
+            c = op_const(t['args'][1])
+            if c is not None:
+                continue
+            # trace generation back to a field read of a slot
+            reads = []
+            seen = set()
+            work = [gl]
+            while work:
+                l = work.pop()
+                if l is None or l in seen:
+                    continue
+                seen.add(l)
+                for db, di, ds in body.assigns_to(l):
+                    if di is None:
+                        continue
+                    rv = ds['rv']
+                    if rv['k'] == 'use':
+                        pl = op_place(rv['op'])
+                        if pl is not None and pl['p']:
+                            lf = last_field(body, rv['op'])
+                            if lf and lf[0].endswith('::Slot') and lf[1] == gen_slot:
+                                reads.append((db, di, ds))
+                            elif lf and lf[0] == 'tuple':
+                                # (index, generation) tuples: follow the tuple's construction
+                                for tb, ti, ts in body.assigns_to(pl['l']):
+                                    if ti is not None and ts['rv']['k'] == 'agg' and ts['rv']['agg'] == 'tuple':
+                                        o = ts['rv']['ops'][lf[1]]
+                                        if op_local(o) is not None:
+                                            work.append(op_local(o))
+                        elif pl is not None:
+                            work.append(pl['l'])
+            for db, di, ds in reads:
+                ok = any(pos_after(body, (db, di), (ab, None)) and body.dominates(ab, db) for ab, at in acts)
+                if not ok:
+                    r.viol('G2b', name + '/generation-read-before-activation', f.loc(ds['ln']),
+                           'the generation stored in the returned identifier is read from the slot before activate_unchecked bumps it: the identifier returned (and stored in the archetype) is one generation stale and does not resolve')
+    return r
